@@ -8,5 +8,6 @@ import (
 	_ "github.com/saucelabs/forwarder/verifharness/c08"
 	_ "github.com/saucelabs/forwarder/verifharness/c16"
 	_ "github.com/saucelabs/forwarder/verifharness/c17"
+	_ "github.com/saucelabs/forwarder/verifharness/c18"
 	_ "github.com/saucelabs/forwarder/verifharness/c20"
 )
